@@ -109,7 +109,12 @@ def gen_shift(rng, n, kind):
     if kind == "int":
         return rng.choice([0, 1, -1, n - 1, n, n + 1, -n, -n - 1, 2 * n + 3, rng.randrange(-n + 1, n),
                            rng.randrange(-5 * n, 5 * n)])
-    return rng.randrange(-8 * n + 1, 8 * n) / 8.0     # dyadic, in (-n, n)
+    r = rng.random()
+    if r < 0.5:
+        return rng.randrange(-8 * n + 1, 8 * n) / 8.0     # dyadic, in (-n, n)
+    if r < 0.6:
+        return rng.choice([-1, 1]) * 1e-6 * (1 + rng.random())      # tiny
+    return round(rng.uniform(-n, n), 9)
 
 
 def gen_model_cases(ctx):
@@ -185,8 +190,22 @@ def call(ctx, st, what, fn, desc, tags):
 
 
 def close(a, b, dt, scale):
-    err = float(np.max(np.abs(np.asarray(a, dtype=float) - np.asarray(b, dtype=float)))) if np.size(a) else 0.0
+    a, b = np.asarray(a), np.asarray(b)
+    if a.shape != b.shape or not np.isrealobj(a):
+        return False, float("inf")
+    err = float(np.max(np.abs(a.astype(float) - b.astype(float)))) if a.size else 0.0
+    if not np.isfinite(err):
+        return False, float("inf")
     return err <= tol_of(dt) * scale, err / scale
+
+
+def shape_ok(ctx, y, ref, desc):
+    if not isinstance(y, np.ndarray) or y.shape != ref.shape or y.dtype != ref.dtype:
+        ctx.fail("shape/dtype not preserved: got %s %s for input %s %s" % (
+            getattr(y, "shape", None), getattr(y, "dtype", type(y)), ref.shape, ref.dtype), desc,
+            {"clause": "shape_dtype"})
+        return False
+    return True
 
 
 def oracle_n(ctx, st, n):
@@ -206,7 +225,7 @@ def oracle_n(ctx, st, n):
                 if mk != "pyint" and m not in (0, ints[4]):
                     continue
                 s = {"pyint": int(m), "float": float(m), "npint": np.int64(m)}[mk]
-                desc = {"n": n, "dtype": dt, "signal": "impulse basis (np.eye(n))", "shift": m, "shift_type": mk,
+                desc = {"kind": "impulse_int", "n": n, "dtype": dt, "signal": "impulse basis (np.eye(n))", "shift": m, "shift_type": mk,
                         "axis": -1}
                 before = eye.copy()
                 y = call(ctx, st, "fshift", lambda: fourier.fshift(eye, s), desc, {"clause": "roll"})
@@ -217,11 +236,10 @@ def oracle_n(ctx, st, n):
                     st.nontrivial.add((n, dt, "int", m))
                 if not np.array_equal(eye, before):
                     ctx.fail("real input array modified by fshift", desc, {"clause": "input_untouched"})
-                if y.shape != eye.shape or y.dtype != eye.dtype:
-                    ctx.fail("shape/dtype not preserved: %s %s" % (y.shape, y.dtype), desc, {"clause": "shape_dtype"})
+                if not shape_ok(ctx, y, eye, desc):
                     continue
                 ok, err = close(y, np.roll(eye, m, axis=-1), dt, scale)
-                st.maxerr[dt] = max(st.maxerr[dt], err)
+                st.maxerr[dt] = max(st.maxerr[dt], err if np.isfinite(err) else 0.0)
                 if not ok:
                     j = int(np.argmax(np.max(np.abs(y - np.roll(eye, m, axis=-1)), axis=1)))
                     ctx.fail("integer shift %d is not np.roll (impulse at %d, max err %.3g)" % (m, j, err),
@@ -229,8 +247,8 @@ def oracle_n(ctx, st, n):
         # --- along axis 0 with the impulse basis (columns are traces), per-trace integer shifts
         svec = np.array([rng.randrange(-n + 1, n) for _ in range(n)], dtype=float)
         for axis in (0, 1):
-            desc = {"n": n, "dtype": dt, "signal": "impulse basis (np.eye(n))", "shift": "per-trace integers",
-                    "svec_head": svec[:6].tolist(), "axis": axis}
+            desc = {"kind": "impulse_per_trace", "n": n, "dtype": dt, "signal": "impulse basis (np.eye(n))",
+                    "shift": "per-trace integers", "svec": svec.tolist(), "axis": axis}
             y = call(ctx, st, "fshift", lambda: fourier.fshift(eye, svec, axis=axis), desc, {"clause": "per_trace"})
             if y is None:
                 continue
@@ -240,21 +258,22 @@ def oracle_n(ctx, st, n):
                 exp = np.stack([np.roll(eye[i], int(svec[i])) for i in range(n)])
             else:
                 exp = np.stack([np.roll(eye[:, i], int(svec[i])) for i in range(n)], axis=1)
+            if not shape_ok(ctx, y, eye, desc):
+                continue
             ok, err = close(y, exp, dt, scale)
-            st.maxerr[dt] = max(st.maxerr[dt], err)
-            if y.shape != eye.shape or y.dtype != eye.dtype:
-                ctx.fail("shape/dtype not preserved: %s %s" % (y.shape, y.dtype), desc, {"clause": "shape_dtype"})
-            elif not ok:
+            st.maxerr[dt] = max(st.maxerr[dt], err if np.isfinite(err) else 0.0)
+            if not ok:
                 ctx.fail("per-trace integer shifts along axis %d are not per-trace rolls (max err %.3g)" % (axis, err),
                          desc, {"clause": "per_trace"})
         # --- scalar shift along axis 0
         m = rng.randrange(-n + 1, n)
-        desc = {"n": n, "dtype": dt, "signal": "impulse basis (np.eye(n))", "shift": m, "axis": 0}
+        desc = {"kind": "impulse_int", "n": n, "dtype": dt, "signal": "impulse basis (np.eye(n))", "shift": m,
+                "shift_type": "pyint", "axis": 0}
         y = call(ctx, st, "fshift", lambda: fourier.fshift(eye, m, axis=0), desc, {"clause": "axis"})
         if y is not None:
             st.count("scalar_axis0")
             ok, err = close(y, np.roll(eye, m, axis=0), dt, scale)
-            if not ok or y.shape != eye.shape or y.dtype != eye.dtype:
+            if shape_ok(ctx, y, eye, desc) and not ok:
                 ctx.fail("scalar shift along axis 0 is not np.roll(axis=0) (max err %.3g)" % err, desc,
                          {"clause": "axis"})
         # --- composition on the impulse basis
@@ -262,7 +281,8 @@ def oracle_n(ctx, st, n):
         s2 = rng.randrange(-8 * n + 1, 8 * n) / 8.0
         m2 = float(rng.randrange(-n + 1, n))
         for (a, b, kind) in ((s1, m2, "frac+int"), (m2, s1, "int+frac"), (s1, s2, "frac+frac")):
-            desc = {"n": n, "dtype": dt, "signal": "impulse basis (np.eye(n))", "s": a, "t": b, "axis": -1}
+            desc = {"kind": "compose", "n": n, "dtype": dt, "signal": "impulse basis (np.eye(n))", "s": a, "t": b,
+                    "axis": -1}
             y = call(ctx, st, "fshift∘fshift",
                      lambda: (fourier.fshift(fourier.fshift(eye, a), b), fourier.fshift(eye, a + b)),
                      desc, {"clause": "compose"})
@@ -271,6 +291,8 @@ def oracle_n(ctx, st, n):
             st.count("compose_" + kind)
             st.nontrivial.add((n, dt, "compose", kind))
             two, one = y
+            if not (shape_ok(ctx, two, eye, desc) and shape_ok(ctx, one, eye, desc)):
+                continue
             ok, err = close(two, one, dt, scale)
             nyq = (n % 2 == 0) and (a != math.floor(a)) and (b != math.floor(b))
             if nyq:
@@ -307,37 +329,65 @@ def oracle_n(ctx, st, n):
             t = np.arange(n, dtype=float)
             x = trig(t).astype(DT[dt])
             sc = max(1.0, float(np.max(np.abs(x))))
-            for s in (s1, 0.5, -0.25):
-                desc = {"n": n, "dtype": dt, "signal": "trig polynomial", "harmonics": ks, "a": ak, "b": bk,
+            for s in (s1, 0.5, round(rng.uniform(-n, n), 9), rng.choice([-1, 1]) * 1e-6 * (1 + rng.random())):
+                desc = {"kind": "trig", "n": n, "dtype": dt, "signal": "trig polynomial", "harmonics": ks, "a": ak, "b": bk,
                         "dc": dc, "shift": s}
                 y = call(ctx, st, "fshift", lambda: fourier.fshift(x, s), desc, {"clause": "fractional"})
                 if y is None:
                     continue
                 st.count("fractional_bandlimited")
                 st.nontrivial.add((n, dt, "fractional", s))
+                if not shape_ok(ctx, y, x, desc):
+                    continue
                 ok, err = close(y, trig(t - s), dt, sc)
-                st.maxerr[dt] = max(st.maxerr[dt], err)
+                st.maxerr[dt] = max(st.maxerr[dt], err if np.isfinite(err) else 0.0)
                 if not ok:
                     ctx.fail("fractional shift of a band-limited signal is not the analytic delay (max err %.3g)"
                              % err, desc, {"clause": "fractional"})
                 # compose is exact here (no Nyquist content)
                 y2 = call(ctx, st, "fshift", lambda: fourier.fshift(y, 0.375), desc, {"clause": "compose"})
-                if y2 is not None:
+                if y2 is not None and shape_ok(ctx, y2, x, desc):
                     ok, err = close(y2, trig(t - s - 0.375), dt, sc * (100 if dt == "f32" else 1))
                     if not ok:
                         ctx.fail("successive fractional shifts of a band-limited signal do not add up "
                                  "(max err %.3g)" % err, desc,
                                  {"clause": "compose", "shifts": "both_fractional", "nyquist_content": False})
+        # --- 3-D arrays (waveform stacks): scalar and per-trace shifts along the last and the middle axis
+        if n <= 64 or ctx.thorough():
+            X3 = np.array([rng.randrange(-100, 101) for _ in range(6 * n)], dtype=DT[dt]).reshape(2, 3, n)
+            sv = np.array([gen_shift(rng, n, rng.choice(["int", "frac"])) for _ in range(6)], dtype=float)
+            for axis, arr in ((-1, X3), (1, np.ascontiguousarray(np.swapaxes(X3, 1, 2)))):
+                for svec in (float(sv[0]), sv):
+                    desc = {"kind": "nd3", "n": n, "dtype": dt, "signal": "random integers, 3-D", "shape": list(arr.shape),
+                            "axis": axis, "shift": np.asarray(svec).tolist(), "x": arr.ravel().tolist()}
+                    y = call(ctx, st, "fshift", lambda: fourier.fshift(arr, svec, axis=axis), desc,
+                             {"clause": "per_trace"})
+                    if y is None or not shape_ok(ctx, y, arr, desc):
+                        continue
+                    st.count("nd3_axis%d_%s" % (axis, "vec" if np.ndim(svec) else "scalar"))
+                    st.nontrivial.add((n, dt, "3d", axis, np.ndim(svec)))
+                    sl = np.broadcast_to(np.asarray(svec, dtype=float).reshape(2, 3) if np.ndim(svec) else svec, (2, 3))
+                    yy = y if axis == -1 else np.swapaxes(y, 1, 2)
+                    ref = call(ctx, st, "fshift", lambda: np.stack([np.stack(
+                        [fourier.fshift(X3[a, b], float(sl[a, b])) for b in range(3)]) for a in range(2)]),
+                        desc, {"clause": "per_trace"})
+                    if ref is None:
+                        continue
+                    ok, err = close(yy, ref, dt, 100.0)
+                    if not ok:
+                        ctx.fail("3-D array: traces are not shifted independently with their own shift "
+                                 "(axis %d, max err %.3g)" % (axis, err), desc, {"clause": "per_trace"})
         # --- frequency-domain entry point: fshift(rfft(x), s, ns=n) then irfft == fshift(x, s)
         if dt == "f64":
             xr = np.array([rng.randrange(-100, 101) for _ in range(n)], dtype=float)
-            desc = {"n": n, "dtype": dt, "signal": "random integers", "x_head": xr[:8].tolist(), "shift": s1}
+            desc = {"kind": "complex_entry", "n": n, "dtype": dt, "signal": "random integers", "x": xr.tolist(),
+                    "shift": s1}
             r = call(ctx, st, "fshift(complex, ns=)",
                      lambda: (scipy.fft.irfft(fourier.fshift(scipy.fft.rfft(xr), s1, ns=n), n),
                               fourier.fshift(xr, s1)), desc, {"clause": "complex_entry"})
             if r is not None:
                 st.count("complex_entry")
-                ok, err = close(r[0], r[1], dt, 100.0)
+                ok, err = close(r[0], r[1], dt, 100.0) if shape_ok(ctx, r[1], xr, desc) else (True, 0)
                 if not ok:
                     ctx.fail("frequency-domain entry (ns=) differs from the time-domain shift (max err %.3g)" % err,
                              desc, {"clause": "complex_entry"})
@@ -351,7 +401,7 @@ def model_correspondence(ctx, st, cases):
     keep = []
     malformed = []
     for c in cases:
-        desc = {k: c[k] for k in ("shape", "axis", "dtype", "x", "s")}
+        desc = dict({k: c[k] for k in ("shape", "axis", "dtype", "x", "s")}, kind="model")
         st.evals += 1
         try:
             x, x0, y = impl_fshift(c)
@@ -383,7 +433,7 @@ def model_correspondence(ctx, st, cases):
         if o != [0]:
             ctx.disagree("model accepts an input on which fshift raises", {k: c[k] for k in ("shape", "axis", "x", "s")})
     for c, o, y in zip(keep, outs, impl):
-        desc = {k: c[k] for k in ("shape", "axis", "dtype", "x", "s")}
+        desc = dict({k: c[k] for k in ("shape", "axis", "dtype", "x", "s")}, kind="model")
         if not o or o[0] != 1 or len(o) != 1 + y.size:
             ctx.disagree("model refuses an input the implementation accepts (model output %s)" % o[:3], desc)
             continue
@@ -440,7 +490,7 @@ def parab_check(ctx, st):
     outs = ex.run_many(inputs, nproc=1)
     rows_by_len = {}
     for x, o in zip(xs, outs):
-        desc = {"x": x}
+        desc = {"kind": "parab", "x": x}
         st.evals += 1
         try:
             ip, mx = utils.parabolic_max(np.array(x, dtype=float))
@@ -487,7 +537,7 @@ def parab_check(ctx, st):
         exp_mx = np.array([r[2] for r in rows])
         st.count("parabolic_2d")
         if not (np.allclose(ip2, exp_ip, rtol=0, atol=1e-9) and np.allclose(mx2, exp_mx, rtol=1e-9, atol=1e-9)):
-            ctx.fail("parabolic_max on a 2-D array differs row-wise from the 1-D result", {"x": arr.tolist()},
+            ctx.fail("parabolic_max on a 2-D array differs row-wise from the 1-D result", {"kind": "parab", "x": arr.tolist()},
                      {"clause": "parabola_2d"})
     # exact parabola with a fractional vertex
     for _ in range(40):
@@ -507,7 +557,7 @@ def parab_check(ctx, st):
         st.count("parabolic_exact")
         if im not in (0, ns - 1) and (abs(float(ip) - v) > 1e-9 or abs(float(mx) - A) > 1e-9 * A):
             ctx.fail("parabolic_max of an exact parabola does not return its vertex (%r, %r) vs (%r, %r)"
-                     % (float(ip), float(mx), v, A), {"x": x.tolist(), "vertex": v}, {"clause": "parabola_vertex"})
+                     % (float(ip), float(mx), v, A), {"kind": "parab", "x": x.tolist(), "vertex": v}, {"clause": "parabola_vertex"})
 
 
 # --------------------------------------------------------------------------
@@ -537,11 +587,11 @@ def measure_delay(ctx, st):
             resid = max(resid, float(np.max(np.abs(r - sp)) / np.max(np.abs(sp))))
             if abs(float(sc) - float(s)) > 0.05:
                 ctx.fail("wave_shift_corrmax: estimated delay %.4f for applied shift %.4f (more than a few hundredths "
-                         "of a sample)" % (sc, s), {"points": pts, "a": a, "shift": float(s)}, {"clause": "delay"})
+                         "of a sample)" % (sc, s), {"kind": "delay", "points": pts, "a": a, "shift": float(s)}, {"clause": "delay"})
             if np.max(np.abs(r - sp)) > 0.02 * np.max(np.abs(sp)):
                 ctx.fail("wave_shift_corrmax does not re-align the shifted copy (residual %.3g of the peak)"
                          % (np.max(np.abs(r - sp)) / np.max(np.abs(sp))),
-                         {"points": pts, "a": a, "shift": float(s)}, {"clause": "realign"})
+                         {"kind": "delay", "points": pts, "a": a, "shift": float(s)}, {"clause": "realign"})
     ctx.measurements["wave_shift_corrmax_max_abs_delay_error_samples"] = worst
     ctx.measurements["wave_shift_corrmax_max_realign_residual_rel_peak"] = resid
     ctx.measurements["wave_shift_corrmax_bounds"] = {"delay_error": 0.05, "residual": 0.02}
@@ -574,7 +624,7 @@ def roll_correspondence(ctx, st):
             x = [rng.randrange(-1000, 1001) for _ in range(n)]
             inputs.append([3, m, n] + x)
             outs.append([int(v) for v in np.roll(np.array(x, dtype=np.int64), m)])
-            descs.append({"roll": True, "m": m, "x": x})
+            descs.append({"kind": "roll", "m": m, "x": x})
             st.evals += 1
             st.count("roll_model")
     common.correspondence(ctx, PROP, HEADER, inputs, outs, lambda i: descs[i], n_kernel=30)
@@ -618,43 +668,116 @@ def run(ctx):
                      "Nyquist)", "np.exp(1j*angle*s) is a homomorphism in s with value rfft(delta_1) at s=1"])
 
 
+def _cmp(label, got, exp, tol):
+    got, exp = np.asarray(got), np.asarray(exp)
+    if got.shape != exp.shape:
+        print("%s: shape %s, expected %s" % (label, got.shape, exp.shape))
+        return 1
+    err = float(np.max(np.abs(got.astype(float) - exp.astype(float)))) if got.size else 0.0
+    flat_g, flat_e = got.ravel(), exp.ravel()
+    k = int(np.argmax(np.abs(flat_g.astype(float) - flat_e.astype(float)))) if got.size else 0
+    print("%s: max |implementation - expected| = %.3g (tolerance %.3g); worst element %d: %r vs %r" % (
+        label, err, tol, k, flat_g[k] if got.size else None, flat_e[k] if got.size else None))
+    print("   implementation head:", flat_g[:8].tolist(), "\n   expected head      :", flat_e[:8].tolist())
+    return 0 if err <= tol else 1
+
+
 def replay(ctx, data):
+    """Re-run the implementation (and the model where one applies) on the recorded input."""
     inp = data.get("input") or (data.get("correspondence_disagreements") or [{}])[0].get("input")
-    print(json.dumps({k: v for k, v in data.items() if k != "input"}, indent=1)[:2000])
+    print(json.dumps({k: v for k, v in data.items() if k != "input"}, indent=1)[:2500])
     if not inp:
         return 1
-    print("input:", json.dumps(inp)[:2000])
-    from ibldsp import fourier, utils
-    rc = 1
+    print("input:", json.dumps(inp)[:1500])
+    from ibldsp import fourier, utils, waveforms
+    kind = inp.get("kind")
+    dt = inp.get("dtype", "f64")
+    tol = tol_of(dt)
     try:
-        if "shape" in inp:        # a model case
+        if kind == "model":
             x, x0, y = impl_fshift(inp)
-            print("implementation:", np.asarray(y).tolist())
             o = common.Extracted(PROP, "Run").run_many([enc_model_input(inp)], nproc=1)[0]
-            m = (np.array(o[1:], dtype=float) / OUTSC).reshape(inp["shape"]) if o and o[0] == 1 else None
-            print("model         :", None if m is None else m.tolist())
-            scale = max(1.0, float(np.max(np.abs(inp["x"]))))
-            rc = 0 if (m is not None and np.max(np.abs(m - y)) <= tol_of(inp["dtype"]) * scale) else 1
-        elif "x" in inp and "n" not in inp:
+            if not o or o[0] != 1:
+                print("model refuses; implementation returned", np.asarray(y).tolist())
+                return 1
+            m = (np.array(o[1:], dtype=float) / OUTSC).reshape(inp["shape"])
+            return _cmp("fshift vs Coq model", y, m.astype(y.dtype), tol * max(1.0, float(np.max(np.abs(inp["x"])))))
+        if kind == "roll":
+            o = common.Extracted(PROP, "Run").run_many([[3, inp["m"], len(inp["x"])] + inp["x"]], nproc=1)[0]
+            return _cmp("np.roll vs model roll_list", np.roll(np.array(inp["x"]), inp["m"]), np.array(o), 0)
+        if kind == "parab":
             x = np.array(inp["x"], dtype=float)
             print("implementation parabolic_max:", utils.parabolic_max(x))
             if x.ndim == 1:
-                print("model (edge, ip num/den, max num/den):",
-                      common.Extracted(PROP, "Run").run_many([[2, len(inp["x"])] + [int(v) for v in inp["x"]]], nproc=1)[0])
-        elif "n" in inp:
-            n = inp["n"]
-            dt = DT[inp.get("dtype", "f64")]
-            eye = np.eye(n, dtype=dt)
-            if "t" in inp:
-                two = fourier.fshift(fourier.fshift(eye, inp["s"]), inp["t"])
-                one = fourier.fshift(eye, inp["s"] + inp["t"])
-                print("max |fshift(fshift(I,s),t) - fshift(I,s+t)| =", float(np.max(np.abs(two - one))))
-                print("row 0, two shifts:", two[0][:8].tolist(), "\nrow 0, one shift :", one[0][:8].tolist())
-            elif isinstance(inp.get("shift"), (int, float)):
-                y = fourier.fshift(eye, inp["shift"], axis=inp.get("axis", -1))
-                r = np.roll(eye, int(inp["shift"]), axis=inp.get("axis", -1))
-                print("max |fshift(I, s) - roll(I, s)| =", float(np.max(np.abs(y - r))))
-                print("row 0:", y[0][:8].tolist(), "expected", r[0][:8].tolist())
+                o = common.Extracted(PROP, "Run").run_many([[2, len(x)] + [int(v) for v in x]], nproc=1)[0] \
+                    if np.all(x == np.round(x)) else None
+                print("model (ok, edge, ipeak num, den, max num, den):", o)
+                if o and o[0] == 1:
+                    ip, mx = utils.parabolic_max(x)
+                    return _cmp("parabolic_max vs model", [float(ip), float(mx)], [o[2] / o[3], o[4] / o[5]], 1e-9 * max(1, abs(o[4] / o[5])))
+                if "vertex" in inp:
+                    print("exact parabola with vertex", inp["vertex"])
+            return 1
+        if kind == "delay":
+            sp = ricker(inp["points"], inp["a"])
+            r, sc = waveforms.wave_shift_corrmax(sp, fourier.fshift(sp, inp["shift"]))
+            print("applied shift %r, estimated %r, re-alignment residual %.3g of the peak" % (
+                inp["shift"], float(sc), float(np.max(np.abs(r - sp)) / np.max(np.abs(sp)))))
+            return 1 if abs(float(sc) - inp["shift"]) > 0.05 or np.max(np.abs(r - sp)) > 0.02 * np.max(np.abs(sp)) else 0
+        n = inp["n"]
+        eye = np.eye(n, dtype=DT[dt])
+        if kind == "impulse_int":
+            m, ax = inp["shift"], inp.get("axis", -1)
+            sv = {"pyint": int(m), "float": float(m), "npint": np.int64(m)}[inp.get("shift_type", "pyint")]
+            y = fourier.fshift(eye, sv, axis=ax)
+            print("dtype/shape:", y.dtype, y.shape)
+            return _cmp("fshift(I, %r, axis=%d) vs np.roll" % (sv, ax), y, np.roll(eye, int(m), axis=ax), tol) \
+                or int(y.dtype != eye.dtype)
+        if kind == "impulse_per_trace":
+            sv, ax = np.array(inp["svec"], dtype=float), inp["axis"]
+            y = fourier.fshift(eye, sv, axis=ax)
+            exp = np.stack([np.roll(eye[i] if ax == 1 else eye[:, i], int(sv[i])) for i in range(n)], axis=0 if ax == 1 else 1)
+            return _cmp("per-trace integer shifts along axis %d vs per-trace rolls" % ax, y, exp, tol)
+        if kind == "compose":
+            a, b = inp["s"], inp["t"]
+            two, one = fourier.fshift(fourier.fshift(eye, a), b), fourier.fshift(eye, a + b)
+            rc = _cmp("fshift(fshift(I,s),t) vs fshift(I,s+t)", two, one, tol)
+            if n % 2 == 0 and a != math.floor(a) and b != math.floor(b):
+                jj = np.arange(n)
+                dfc = (math.cos(math.pi * a) * math.cos(math.pi * b) - math.cos(math.pi * (a + b))) / n
+                pred = one.astype(float) + dfc * ((-1.0) ** jj)[None, :] * ((-1.0) ** jj)[:, None]
+                rc2 = _cmp("... vs single shift + proved Nyquist defect (theorem C07_compose_nyquist_defect)", two, pred, tol)
+                print("even n, both shifts non-integer: the difference is the known finding F-C07-a"
+                      if rc2 == 0 else "the difference is NOT the proved defect")
+            return rc
+        if kind == "trig":
+            t = np.arange(n, dtype=float)
+
+            def trig(tt):
+                return inp["dc"] + sum(a * np.cos(2 * np.pi * k * tt / n) + b * np.sin(2 * np.pi * k * tt / n)
+                                       for k, a, b in zip(inp["harmonics"], inp["a"], inp["b"]))
+            x = trig(t).astype(DT[dt])
+            y = fourier.fshift(x, inp["shift"])
+            return _cmp("fshift(trig polynomial, s) vs analytic delay", y, trig(t - inp["shift"]),
+                        tol * max(1.0, float(np.max(np.abs(x)))))
+        if kind == "nd3":
+            arr = np.array(inp["x"], dtype=DT[dt]).reshape(inp["shape"])
+            sv = inp["shift"]
+            svv = np.array(sv, dtype=float) if isinstance(sv, list) else sv
+            y = fourier.fshift(arr, svv, axis=inp["axis"])
+            X3 = arr if inp["axis"] == -1 else np.swapaxes(arr, 1, 2)
+            sl = np.broadcast_to(np.asarray(svv, dtype=float).reshape(2, 3) if isinstance(sv, list) else svv, (2, 3))
+            ref = np.stack([np.stack([fourier.fshift(np.ascontiguousarray(X3[a, b]), float(sl[a, b])) for b in range(3)])
+                            for a in range(2)])
+            return _cmp("3-D fshift vs trace-by-trace 1-D fshift", y if inp["axis"] == -1 else np.swapaxes(y, 1, 2),
+                        ref, tol * 100)
+        if kind == "complex_entry":
+            xr = np.array(inp["x"], dtype=float)
+            return _cmp("irfft(fshift(rfft(x), s, ns=n)) vs fshift(x, s)",
+                        scipy.fft.irfft(fourier.fshift(scipy.fft.rfft(xr), inp["shift"], ns=n), n),
+                        fourier.fshift(xr, inp["shift"]), tol * 100)
     except Exception as e:  # noqa
         print("implementation raised:", repr(e))
-    return rc
+        return 1
+    print("no replay handler for this input kind")
+    return 1
